@@ -144,6 +144,7 @@ class GenB:
         self.unsized = set()
         self.decl_count = {}
         self.first_decl = {}
+        self.decl_list = []
         self.used_as_expr = set()
 
     def emit(self, op):
@@ -335,6 +336,7 @@ class GenB:
         eref = self.unit_expr(expr_nf)
         self.emit({"op": "declare", "a": self.unit_ref[a_tok], "m": m, "expr": eref})
         self.declared.add(frozenset([a_nf, expr_nf]))
+        self.decl_list.append((a_nf, expr_nf))
         self.decl_count[a_tok] = self.decl_count.get(a_tok, 0) + 1
         self.first_decl.setdefault(a_tok, (expr_nf, prefix))
         for tt, _ in expr_nf[1]:
@@ -605,6 +607,31 @@ class GenB:
             self.emit({"op": "cmp", "f": kind[3:], "a": q, "b": q2})
         self.queries.append(self.ops[-1])
 
+    def g_endpoint(self):
+        """Convert between exactly the two sides of an earlier declaration (the declared
+        expression, prefix included, is itself a node of the equivalence graph), in either
+        direction, optionally both raised to one power."""
+        rng = self.rng
+        if not self.decl_list:
+            return self.g_query()
+        a_nf, e_nf = rng.choice(self.decl_list)
+        k = rng.choice([1, 1, 1, 2, -1, 3])
+        src, dst = M.u_pow(e_nf, k), M.u_pow(a_nf, k)
+        if rng.random() < 0.4:
+            src, dst = dst, src
+        if any(abs(e) > 3 for _, e in src[1] + dst[1]) or any(t not in self.unit_ref for t, _ in src[1] + dst[1]):
+            return self.g_query()
+        if not self.params.get("outside_region") and pair_class(self.model, src, dst):
+            return self.g_query()
+        sref, dref = self.unit_expr(src), self.unit_expr(dst)
+        self.pairs.append((src, dst))
+        mspec, _ = self.magnitude()
+        q = self.emit({"op": "q_new", "m": mspec, "u": sref, "how": "mul"})
+        r = self.emit({"op": "convert", "q": q, "u": dref})
+        self.qtys.append((r, dst))
+        self.queries.append(self.ops[-1])
+        self.probe_endpoint = True
+
     def g_repeat(self):
         if not self.queries:
             return self.g_query()
@@ -741,8 +768,9 @@ class GenB:
                 continue
             if len(self.unit_ref) < 2:
                 continue
-            k = rng.choices(["query", "chain", "repeat", "evict", "unrelated", "redeclare", "ladder", "reverse"],
-                            [10, 3, 3, 2, 1, 1.5 if self.prop == "C08" else 0.3, 2, 2.5])[0]
+            k = rng.choices(["query", "chain", "repeat", "evict", "unrelated", "redeclare", "ladder", "reverse",
+                             "endpoint"],
+                            [10, 3, 3, 2, 1, 1.5 if self.prop == "C08" else 0.3, 2, 2.5, 1.5])[0]
             before = len(self.ops)
             getattr(self, "g_" + k)()
             if inject_budget and len(self.ops) > before and rng.random() < 0.15:
